@@ -281,6 +281,7 @@ class Flow:
     returns: list = field(default_factory=list)   # (state, atom)
     breaks: list = field(default_factory=list)
     conts: list = field(default_factory=list)
+    breaks_seen: list = field(default_factory=list)
 
 
 class Analyser:
@@ -528,7 +529,16 @@ class Analyser:
                     ok = True
             self.sink(node, 'div', ok, f'divisor {ast.unparse(node.right)} in {ib}')
             if isinstance(op, ast.Div):
-                return s.new(I.div(ia, ib) if ib.nonzero() else I.div_nonzero_part(ia, ib), d=('div', a, b))
+                q = I.div(ia, ib) if ib.nonzero() else I.div_nonzero_part(ia, ib)
+                # quotient lemma: a / (a + c) with a >= 0 and c >= 0 lies in [0, 1] (wherever the divisor is non-zero)
+                db = s.defs.get(b)
+                if db and db[0] == 'add' and a in (db[1], db[2]) and not ia.nan:
+                    c = db[2] if db[1] == a else db[1]
+                    ic = s.iv(c)
+                    if ia.ge0() and ic.ge0() and not ic.nan:
+                        m = I.meet(Itv(q.lo, q.hi, q.lo_open, q.hi_open), Itv(0.0, 1.0, False, False))
+                        q = Itv(m.lo, m.hi, m.lo_open, m.hi_open, q.nan, q.isint, m.empty)
+                return s.new(q, d=('div', a, b))
             return s.new(Itv(nan=ia.nan or ib.nan))
         if isinstance(op, ast.Pow):
             return self.pow(s, a, b, node)
@@ -584,6 +594,36 @@ class Analyser:
                     return [(s, args[0])]
                 return [(s, s.new(Itv(iv.lo, iv.hi, iv.lo_open, iv.hi_open, False, True) if iv.ge0() or iv.le0() else Itv(isint=True)))]
             return self.call_args_then(st, node, go)
+        if fn == 'sum' and len(node.args) == 1 and isinstance(node.args[0], (ast.GeneratorExp, ast.ListComp)) and len(node.args[0].generators) == 1:
+            # sum(<elt> for <name> in <iterable> [if ...]): the element is evaluated once with the loop variable an arbitrary
+            # non-negative int (range / count) -- its sinks are recorded there; the sum of non-negative terms is non-negative
+            comp = node.args[0]
+            gen = comp.generators[0]
+            out = []
+            for (s0, _it) in self.ev(st, gen.iter):
+                s1 = s0.fork()
+                if isinstance(gen.target, ast.Name):
+                    s1.env[gen.target.id] = s1.new(Itv(0.0, I.INF, False, True, isint=True))
+                states = [s1]
+                for cond in gen.ifs:
+                    nxt = []
+                    for sx in states:
+                        nxt += self.assume(sx, cond, True)
+                    states = nxt
+                res = None
+                for sx in states:
+                    for (s2, a) in self.ev(sx, comp.elt):
+                        iv = s2.iv(a)
+                        res = iv if res is None else I.join(res, iv)
+                if res is None or res.empty:
+                    out.append((s0, s0.new(Itv(0.0, 0.0, False, False, False, True))))
+                elif res.ge0() and not res.nan:
+                    out.append((s0, s0.new(Itv(0.0, I.INF, False, True, False, res.isint))))
+                elif res.le0() and not res.nan:
+                    out.append((s0, s0.new(Itv(-I.INF, 0.0, True, False, False, res.isint))))
+                else:
+                    out.append((s0, s0.new(Itv(nan=res.nan, isint=res.isint))))
+            return out
         if fn == 'abs':
             def go_abs(s, args, kw):
                 a = args[0]
@@ -752,6 +792,10 @@ class Analyser:
             ok = iv.gt0()
             self.sink(node, 'log', ok, f'argument {ast.unparse(node.args[0])} in {iv}')
             return s.new(I.log(iv), d=('log', args[0]))
+        if name == 'log1p':
+            ok = not iv.empty and not iv.nan and (iv.lo > -1.0 or (iv.lo == -1.0 and iv.lo_open))
+            self.sink(node, 'log1p', ok, f'argument {ast.unparse(node.args[0])} in {iv}')
+            return s.new(I.log1p(iv), d=('log1p', args[0]))
         if name == 'sqrt':
             ok = iv.ge0()
             self.sink(node, 'sqrt', ok, f'argument in {iv}')
@@ -1206,6 +1250,7 @@ class Analyser:
         if test is None and not isinstance(node, ast.For):
             exit_states = f.breaks
         flow.normal = exit_states
+        flow.breaks_seen = list(f.breaks)
         return flow
 
     def st_While(self, st, node):
@@ -1220,6 +1265,8 @@ class Analyser:
             if isinstance(node.target, ast.Name):
                 s.env[node.target.id] = s.new(Itv(0.0, I.INF, False, True, isint=True))
             f = self.loop(s, None, node.body, node.orelse, node)
+            if isinstance(node.iter, ast.Call) and ast.unparse(node.iter.func) in ('itertools.count', 'count') :
+                f.normal = list(f.breaks_seen)      # an endless iterator: the loop ends only by break / return
             out.normal += f.normal; out.returns += f.returns
         return out
 
